@@ -1604,6 +1604,111 @@ func timerLiveRules(c *Ctx, pfx string) {
 		c.Decide(pfx+"4", fn, "wake channel is buffered", nil, capOK, "the wake channel has no buffer: a wake-up sent while the worker is between unlock and select is lost and a near deadline is slept through")
 	}
 
+	// R11 the notify routine always posts. The callers (add, cancel) decide WHETHER a worker is to be told; a condition
+	// inside the routine itself ("nothing queued: nobody to wake") silently un-tells the callers that rely on it - the
+	// cancel of the last queued future has to wake the worker that sleeps towards that future's deadline, or the worker
+	// (and the pool) stays around until a deadline nobody waits for.
+	{
+		fn := r.notify
+		isPost := func(in ssa.Instruction) bool {
+			if sel, isSel := in.(*ssa.Select); isSel {
+				for _, st := range sel.States {
+					if st.Dir == types.SendOnly {
+						if _, isWake := loadOfField(st.Chan, r.wake); isWake {
+							return true
+						}
+					}
+				}
+			}
+			if snd, isSend := in.(*ssa.Send); isSend {
+				_, isWake := loadOfField(snd.Chan, r.wake)
+				return isWake
+			}
+			return false
+		}
+		c.NoPath(pfx+"11", "every path through the wake-up routine posts on the wake channel", nil, ir.Query{Fn: fn, Block: isPost, Target: ir.IsExit},
+			"the wake-up routine can return without posting: a caller that has decided to wake a worker (a new head, a cancelled head, the last future cancelled) is not heard, and the sleeping worker sleeps on towards a deadline that is gone or no longer the nearest")
+	}
+
+	// R12 a cancelled future leaves the queue, and a worker is told. On every path of the cancel routine that has found the
+	// future queued (its index is not negative) the future is taken out with heap.Remove and, while a worker exists, the
+	// wake channel is poked afterwards. A future that is merely disarmed and left in the heap keeps a worker asleep towards
+	// its deadline once it is the head: the pool does not wind down although nothing is pending.
+	{
+		fn := r.cancel
+		notQueuedEdge := func(from, to *ssa.BasicBlock) bool {
+			ef := ir.EdgeFact(from, to)
+			if ef == nil {
+				return false
+			}
+			cm, isCmp := ef.Cmp()
+			if !isCmp {
+				return false
+			}
+			// idx < 0, idx <= -1, idx == -1 (and mirrored)
+			x, y, op := cm.X, cm.Y, cm.Op
+			if _, isIdx := loadOfField(y, r.fIdx); isIdx {
+				x, y, op = y, x, ir.SwapOp(op)
+			}
+			if _, isIdx := loadOfField(x, r.fIdx); !isIdx {
+				return false
+			}
+			k, isC := ir.ConstInt(y)
+			if !isC {
+				return false
+			}
+			switch op {
+			case token.LSS:
+				return k <= 0
+			case token.LEQ:
+				return k <= -1
+			case token.EQL:
+				return k <= -1
+			}
+			return false
+		}
+		isRemove := func(in ssa.Instruction) bool { return heapCall(in, "Remove") != nil }
+		c.NoPath(pfx+"12", "a queued future is removed from the heap", nil, ir.Query{Fn: fn, Block: isRemove, BlockEdge: notQueuedEdge, Target: ir.IsExit},
+			"the cancel routine can return for a future that is still queued without taking it out of the heap: the disarmed entry stays, becomes the head and a worker sleeps towards its deadline with nothing pending")
+		noWorkerEdge := func(from, to *ssa.BasicBlock) bool {
+			ef := ir.EdgeFact(from, to)
+			if ef == nil {
+				return false
+			}
+			cm, isCmp := ef.Cmp()
+			if !isCmp {
+				return false
+			}
+			x, y, op := cm.X, cm.Y, cm.Op
+			if ir.LoadedField(y) == r.workers {
+				x, y, op = y, x, ir.SwapOp(op)
+			}
+			if ir.LoadedField(x) != r.workers {
+				return false
+			}
+			k, isC := ir.ConstInt(y)
+			if !isC {
+				return false
+			}
+			switch op {
+			case token.EQL:
+				return k == 0
+			case token.LEQ:
+				return k == 0
+			case token.LSS:
+				return k == 1
+			}
+			return false
+		}
+		ir.Instrs(fn, func(in ssa.Instruction) {
+			if !isRemove(in) {
+				return
+			}
+			c.NoPath(pfx+"12", "after the removal a worker is woken", in, ir.Query{Fn: fn, From: in, Block: isNotify, BlockEdge: noWorkerEdge, Target: ir.IsExit},
+				"a future was taken out of the heap and no worker is told while one exists: the worker sleeping towards the cancelled deadline is not re-planned")
+		})
+	}
+
 	// R5 comparator
 	{
 		fn := r.less
